@@ -119,17 +119,19 @@ func loadSites(path string) {
 }
 
 func swarmPolicy(r *simrt.RNG) (simrt.Policy, string) {
-	switch r.Intn(5) {
+	switch r.Intn(6) {
 	case 0: // mostly run-to-block, rare pre-emption: shallow ordering bugs
-		return simrt.Policy{NoPreempt: 0.85, ShortBias: 0.5, KeepCurrent: 0.1, TimerEager: 0.05, WakeOldest: 0.7}, "sparse"
+		return simrt.Policy{NoPreempt: 0.85, ShortBias: 0.5, KeepCurrent: 0.1, TimerEager: 0.05, WakeOldest: 0.7, AfterUnlock: 0.01}, "sparse"
 	case 1: // dense pre-emption
-		return simrt.Policy{NoPreempt: 0.1, ShortBias: 0.8, KeepCurrent: 0.3, TimerEager: 0.15, WakeOldest: 0.5}, "dense"
+		return simrt.Policy{NoPreempt: 0.1, ShortBias: 0.8, KeepCurrent: 0.3, TimerEager: 0.15, WakeOldest: 0.5, AfterUnlock: 0.03}, "dense"
 	case 2: // starvation: some tasks hardly ever run
-		return simrt.Policy{NoPreempt: 0.4, ShortBias: 0.6, KeepCurrent: 0.2, Starve: true, TimerEager: 0.1, WakeOldest: 0.5}, "starve"
+		return simrt.Policy{NoPreempt: 0.4, ShortBias: 0.6, KeepCurrent: 0.2, Starve: true, TimerEager: 0.1, WakeOldest: 0.5, AfterUnlock: 0.02}, "starve"
 	case 3: // eager timers: pollers and sleepers wake early
-		return simrt.Policy{NoPreempt: 0.5, ShortBias: 0.5, KeepCurrent: 0.2, TimerEager: 0.5, WakeOldest: 0.3}, "eager-timers"
+		return simrt.Policy{NoPreempt: 0.5, ShortBias: 0.5, KeepCurrent: 0.2, TimerEager: 0.5, WakeOldest: 0.3, AfterUnlock: 0.02}, "eager-timers"
+	case 4: // pre-empt right behind critical sections, otherwise run to block
+		return simrt.Policy{NoPreempt: 0.8, ShortBias: 0.5, KeepCurrent: 0.05, TimerEager: 0.05, WakeOldest: 0.5, AfterUnlock: 0.2}, "after-unlock"
 	default:
-		return simrt.Policy{NoPreempt: 0.5, ShortBias: 0.7, KeepCurrent: 0.25, TimerEager: 0.1, WakeOldest: 0.5}, "mixed"
+		return simrt.Policy{NoPreempt: 0.5, ShortBias: 0.7, KeepCurrent: 0.25, TimerEager: 0.1, WakeOldest: 0.5, AfterUnlock: 0.03}, "mixed"
 	}
 }
 
